@@ -1,6 +1,6 @@
 --------------------------- MODULE DaskFlowTrace ---------------------------
 (* Trace validation of real scatter ... gather pipelines on an in-process dask cluster against DaskFlow.  *)
-(* ScatterDone is silent.  A loss of order is reported per occurrence (known finding F18 for producers   *)
+(* ScatterDone and HandOver are silent.  A loss of order is reported per occurrence (known finding F18 for producers   *)
 (* that do not await their emits) instead of stopping the run.                                           *)
 EXTENDS DaskFlow, Json, IOUtils, TLCExt
 Traces == JsonDeserialize(IOEnv.TRACE_FILE)
@@ -23,7 +23,7 @@ TraceNext ==
     \/ /\ l <= Len(T) /\ Event(T[l])
        /\ l' = l + 1 /\ TLCSet(tid, Max(TLCGet(tid), l + 1)) /\ UNCHANGED tid
        /\ ((SameOrder /\ ~SameOrder') => PrintT(<<"UNSAFE", Traces[tid].id, l>>))
-    \/ /\ l <= Len(T) /\ (\E e \in Elems : ScatterDone(e)) /\ UNCHANGED <<tid, l>>
+    \/ /\ l <= Len(T) /\ (\E e \in Elems : ScatterDone(e) \/ HandOver(e)) /\ UNCHANGED <<tid, l>>
 TraceSpec == TraceInit /\ [][TraceNext]_tvars
 TraceInv == ExactlyOnce /\ Lossless /\ CbSafe /\ RcBalance
 Report == \A i \in 1 .. Len(Traces) : PrintT(<<"REACHED", Traces[i].id, TLCGet(i), Len(Traces[i].ev) + 1>>)
